@@ -94,22 +94,30 @@ func (h *harness) judge(entry string, in []byte, r resp) string {
 			Expected: "value or error in bounded time", Observed: "no return after " + deadline.String(), Key: map[string]interface{}{"entry": entry}})
 		return "timeout"
 	case "died":
+		// reproduced with the input alone in a fresh process (see runBatch). The allocation oracle
+		// judges the size of the failing request against the input, not the death as such.
 		kind := "crash:" + entry
 		key := map[string]interface{}{"entry": entry, "fatal": true, "cause": "unknown"}
 		if strings.Contains(r.out, "out of memory") || strings.Contains(r.out, "cannot allocate memory") {
-			kind = "alloc:" + entry
-			// the failing allocation is identified from the stack of the fatal error
 			key["cause"] = causeOf(r.extra)
+			over := true
 			if m := reRequested.FindStringSubmatch(r.out); m != nil {
 				if n, err := strconv.ParseUint(m[1], 10, 64); err == nil {
 					key["requested_bytes"] = n
+					over = n > allocA*uint64(len(in))+allocB
 				}
+			}
+			if over {
+				kind = "alloc:" + entry
 			}
 		}
 		h.s.Count("died:" + entry + ":cause=" + fmt.Sprint(key["cause"]))
-		h.s.Violate(kit.Violation{Kind: kind, What: "the process running the parser died (fatal error; address space limited to " + strconv.Itoa(asLimit>>30) + " GiB)",
+		h.s.Violate(kit.Violation{Kind: kind, What: "the process running the parser died with this input alone in a fresh process (fatal error; address space limited to " + strconv.Itoa(asLimit>>30) + " GiB)",
 			Input: mkProbe(entry, in), Expected: "value or error, memory proportional to the input", Observed: r.out, Key: key})
 		return "died"
+	}
+	if r.note != "" {
+		h.s.Skipped["worker "+strings.SplitN(r.note, " (", 2)[0]+" when the input ran alone:"+entry]++
 	}
 	if r.alloc > h.maxA[entry][0] {
 		h.maxA[entry] = [2]uint64{r.alloc, uint64(len(in))}
